@@ -159,6 +159,7 @@ let () =
    | "C13" -> run_generic [| "n0"; "e0"; "n1"; "e1"; "_4"; "_5"; "_6"; "_7"; "_8"; "_9"; "iso"; "iso_matching"; "sub"; "sub_matching"; "sub_iter" |] all_tags IsoM.run_case lines oc
    | "C13v" -> run_generic [| "n0"; "e0"; "n1"; "e1"; "_4"; "_5"; "_6"; "_7"; "_8"; "_9"; "iso"; "iso_matching"; "sub"; "sub_matching"; "sub_iter" |] all_tags Vf2M.vf2_run_case lines oc
    | "C03" -> run_generic gmap_ops all_tags GraphMapM.run_case lines oc
+   | "C17m" -> run_generic (Array.append (pad_to gmap_ops 20) [| "ser"; "roundtrip"; "deser" |]) all_tags SerdeGM.run_case lines oc
    | "C04" -> run_generic mg_ops mg_tags MatrixM.run_case lines oc
    | "C05csr" -> run_generic csr_ops csr_tags CsrM.run_case lines oc
    | "C05list" -> run_generic list_ops list_tags AdjListM.run_case lines oc
